@@ -8,6 +8,9 @@ S < L, cofactored equation).
            bits of the last octet; sign bit)
   crafted  small-order A and R in all their encodings (canonical, x = 0 with the sign bit set, y + p, Ed448 spare bits)
            x S in {0, 1, L-1, L, L+1, 2L, 2^b-1}: the cofactored equation holds iff S = 0 mod L, whatever the message
+  edsweep  (thorough tier) one octet of the genuine signature (first / last of R, first / top / last of S) or of the public key
+           (first / last) takes each of the 255 other values
+The thorough tier also uses the context lengths of VARIANTS_T and message names 'len:N' (length sweeps, _c04_base.message).
 """
 import hashlib
 
